@@ -59,6 +59,10 @@ type script struct {
 	Cut      int  // >=0: send only the first Cut bytes of the response
 	CloseAt  int  // 0: normal (write all, close), 1: close before the handshake, 2: close right after the handshake
 	KeepOpen bool // do not close after writing (the client must not depend on EOF)
+	// Seg: how the peer hands the response to TLS. 0: one write; -1: one write per
+	// record; n>0: writes of n bytes (each write is a TLS record of its own, i.e.
+	// one read on the client side).
+	Seg int
 }
 
 const (
@@ -93,6 +97,21 @@ func scripts(thorough bool) []script {
 	for _, n := range []int{0, 1, 8, 9} {
 		ss = append(ss, script{Name: fmt.Sprintf("cookies=%d", n), ALPN: ok, Recs: baseRecs(n), Cut: -1})
 	}
+	// the same valid response however the transport segments it
+	for _, seg := range []int{-1, 1, 7, 64, 150} {
+		ss = append(ss, script{Name: fmt.Sprintf("valid-segmented=%d", seg), ALPN: ok, Recs: baseRecs(8), Cut: -1, Seg: seg})
+	}
+	// more cookie material than one buffer of the client's reader holds
+	big := []rec{{rNext, true, u16(0)}, {rAEAD, true, u16(15)}}
+	for i := 0; i < 8; i++ {
+		c := make([]byte, 700)
+		for k := range c {
+			c[k] = byte(i*53 + k*7)
+		}
+		big = append(big, rec{rCookie, false, c})
+	}
+	big = append(big, rec{rEOM, true, nil})
+	ss = append(ss, script{Name: "valid-large-cookies", ALPN: ok, Recs: big, Cut: -1}, script{Name: "valid-large-cookies-segmented", ALPN: ok, Recs: big, Cut: -1, Seg: -1})
 	names := []string{"nextproto", "aead", "server", "port", "cookie0", "cookie1", "eom"}
 	for i := range base {
 		ss = append(ss, script{Name: "drop-" + names[i], ALPN: ok, Recs: without(base, i), Cut: -1})
@@ -248,8 +267,25 @@ func servePeer(w *world.World, sc script, conn *vnet.StreamConn, ps *peerState) 
 	if sc.Cut >= 0 && sc.Cut < len(stream) {
 		stream = stream[:sc.Cut]
 	}
-	if len(stream) > 0 {
+	switch {
+	case len(stream) == 0:
+	case sc.Seg == 0:
 		tc.Write(stream)
+	case sc.Seg < 0:
+		rest := stream
+		for _, r := range sc.Recs {
+			n := min(len(r.bytes()), len(rest))
+			if n > 0 {
+				tc.Write(rest[:n])
+			}
+			rest = rest[n:]
+		}
+	default:
+		for rest := stream; len(rest) > 0; {
+			n := min(sc.Seg, len(rest))
+			tc.Write(rest[:n])
+			rest = rest[n:]
+		}
 	}
 	if !sc.KeepOpen {
 		tc.Close()
@@ -492,6 +528,6 @@ func TestCheck(t *testing.T) {
 			}
 		}
 		r.Extra["scripts"] = len(ss)
-		r.Extra["rule"] = "scripted TLS 1.3 peer: the valid record sequence and every single deviation (each record dropped, replaced, adjacent records swapped, warning/error(0,1,2,7)/unknown critical/unknown optional records inserted at every position, 0/1/8/9 cookies, truncation at every byte, ALPN none/other, connection closed before/after the handshake, connection kept open); histories of 2 and 3 FetchData calls over 15 distinct scripts; the project's own key-exchange handler as peer; destination of the following NTS request"
+		r.Extra["rule"] = "scripted TLS 1.3 peer: the valid record sequence and every single deviation (each record dropped, replaced, adjacent records swapped, warning/error(0,1,2,7)/unknown critical/unknown optional records inserted at every position, 0/1/8/9 cookies, the valid response handed to TLS in one write, one write per record, or writes of 1/7/64/150 bytes, 8 cookies of 700 bytes (more than the client's read buffer), truncation at every byte, ALPN none/other, connection closed before/after the handshake, connection kept open); histories of 2 and 3 FetchData calls over 15 distinct scripts; the project's own key-exchange handler as peer; destination of the following NTS request"
 	})
 }
